@@ -124,7 +124,10 @@ pub fn product<T: Copy, const N: usize>(axes: &[Vec<T>; N]) -> Vec<[T; N]> {
 
 /// Probe coordinates of one axis: the given coordinates (sorted, distinct), a point between any two
 /// neighbours, one point below and one above.
-pub fn probe_axis<T: Sc>(vals: &[T]) -> Vec<T> {
+/// The flag is false when two neighbouring coordinates have no representable point between them
+/// (adjacent floats): the grid then cannot witness a common interior point and the case is discarded.
+pub fn probe_axis<T: Sc>(vals: &[T]) -> (Vec<T>, bool) {
+    let mut complete = true;
     let mut v: Vec<T> = Vec::new();
     for &x in vals {
         if !v.iter().any(|y| *y == x) {
@@ -140,11 +143,13 @@ pub fn probe_axis<T: Sc>(vals: &[T]) -> Vec<T> {
             let m = (v[i] + v[i + 1]) / two;
             if m > v[i] && m < v[i + 1] {
                 out.push(m);
+            } else {
+                complete = false;
             }
         }
     }
     out.push(v[v.len() - 1] + T::one());
-    out
+    (out, complete)
 }
 
 /// Relation of two valid boxes (for labels and the non-triviality rule only).
